@@ -29,6 +29,9 @@ struct Chan { bool full = false; SU_vector v;
 #endif
 
 typedef std::vector<double> Out;
+// every body ends by comparing its thread's floating-point mode word with the one the process started with (threads inherit it)
+static volatile int g_env_changed = 0;
+static void env_check() { if (fp_env_word() != fp_env_at_start()) g_env_changed = 1; }
 static void put(Out& o, const SU_vector& v) { for (unsigned i = 0; i < v.Size(); i++) o.push_back(v[i]); }
 
 // ------------------------------------------------------------------ body A: own vectors
@@ -51,6 +54,7 @@ static void body_own(int t, Out& out) {
     { SU_vector P = SU_vector::Projector(d, d - 1), I = SU_vector::Identity(d), G = SU_vector::Generator(d, 1), Pp = SU_vector::PosProjector(d, 1), Pn = SU_vector::NegProjector(d, 1), al = SU_vector::make_aligned(d);
       put(out, P); put(out, I); put(out, G); put(out, Pp); put(out, Pn); put(out, al); out.push_back(P * P); }
   }
+  env_check();
   SU_vector::clear_mem_cache();
 }
 
@@ -70,6 +74,7 @@ static void body_ring(Ring& R, int t, Out& out) {
       R.ch[(t + 1) % R.n]->send(std::move(z));
     }
   }
+  env_check();
   SU_vector::clear_mem_cache();
 }
 
@@ -105,6 +110,7 @@ static void body_query(const Sol& s, int t, Out& out, bool use_tls = true) {
     out.push_back(s.GetExpectationValueD(O, ir, x, buf, 1e300, avr));
     SU_vector is = s.GetIntermediateState(ir, x); put(out, is);
   }
+  env_check();
   SU_vector::clear_mem_cache();
 }
 
@@ -123,6 +129,7 @@ static void body_own_solver(int t, Out& out) {
     out.push_back(s.Get_t());
     NumSol moved(std::move(s)); moved.Evolve(0.1); out.push_back(moved.GetExpectationValue(O, 0, 0));
   }
+  env_check();
   SU_vector::clear_mem_cache();
 }
 
@@ -160,6 +167,7 @@ static void body_libcalls(int t, Out& out) {
     SU_vector u = a.UTransform(b, gsl_complex_rect(0, 0.5)); put(out, u);   // matrix exponential: products, LU solve, random draws
     { Mat U = ref::eye(d); U(0, 0) = std::cos(0.7); U(1, 1) = std::cos(0.7); U(0, 1) = std::sin(0.7); U(1, 0) = -std::sin(0.7); GslMat Ug(U); SU_vector r = a.UTransform(Ug.g); put(out, r); SU_vector r2 = b.Rotate(Ug.g); put(out, r2); }
   }
+  env_check();
   SU_vector::clear_mem_cache();
 }
 static gsl_error_handler_t* g_handler0 = nullptr;   // the process-wide GSL error handler the harness installed before any thread ran
@@ -249,6 +257,7 @@ int main(int argc, char** argv) {
       std::vector<Out> solo(n); for (int t = 0; t < n; t++) { std::thread x([&, t] { for (int q = 0; q < 4; q++) body_libcalls(t, solo[t]); }); x.join(); }
       std::string why; count("evaluations"); if (!same(out, solo, true, why)) violation("free-running:library-calls:differs-from-solo", J().i("threads", n).str("why", why).done());
       if (current_gsl_handler() != g_handler0) { violation("free-running:process-wide-error-handler-changed", J().i("threads", n).done()); gsl_set_error_handler(g_handler0); } }
+    if (g_env_changed) { violation("free-running:floating-point-environment-changed-in-a-worker-thread", J().i("threads", n).done()); g_env_changed = 0; }
     distinct(ref::fnv(&rep, 4, n));
   }
   sample(J().str("pass", "free-running ThreadSanitizer pass over bodies own-vectors, hand-over ring, shared solver, thread exit").i("repetitions", reps).done());
@@ -291,6 +300,7 @@ int main(int argc, char** argv) {
       std::string ctx = "{\"replay\":" + jstr(sc.name + ";" + std::to_string(sc.n) + ";" + sch) + ",\"scenario\":" + jstr(sc.name) + ",\"threads\":" + std::to_string(sc.n) + ",\"schedule\":" + jstr(sch);
       if (deadlock || livelock) { violation("threads:" + sc.name + (deadlock ? ":deadlock" : ":livelock"), ctx + "}"); finish(); fflush(stdout); _exit(0); }
       arena::Arena& A = arena::A();
+      if (g_env_changed) { viol++; violation("threads:" + sc.name + ":floating-point-environment-changed-in-a-worker-thread", ctx + "}"); g_env_changed = 0; }
       if (!opaque::conflict.empty()) { viol++; violation("threads:" + sc.name + ":two-threads-in-library-calls-on-one-object", ctx + ",\"what\":" + jstr(opaque::conflict) + "}"); }
       if (current_gsl_handler() != g_handler0) { viol++; violation("threads:" + sc.name + ":process-wide-error-handler-changed", ctx + "}"); gsl_set_error_handler(g_handler0); }
       // every worker thread has ended (joined): what it cached must have been given back
